@@ -886,6 +886,38 @@ def run_history(rec, case):
     if shared:
         shared_msg = (f'two rendering calls ({shared[0]}; {shared[1]}) hand out the same mutable {shared[2]} object'
                       + (f' (text {shared[3]!r})' if shared[3] else ''))
+    # ---- an excerpt of a table (slice) modified in place by its holder: the source table is unchanged
+    from valjean.javert.rst import RstTable
+
+    def snapshot(tab):
+        try:
+            text = str(RstTable(tab))
+        except Exception as exc:  # noqa
+            text = type(exc).__name__
+        return list(tab.headers), list(tab.units), text
+    nsliced = 0
+    for what, tmpls in calls:
+        for tab in tmpls:
+            if nsliced >= 8 or not isinstance(tab, TableTemplate) or not isinstance(tab.columns[0], np.ndarray) \
+                    or tab.columns[0].ndim == 0:
+                continue
+            before = snapshot(tab)
+            try:
+                excerpt = tab[:1]
+            except Exception:  # noqa
+                continue
+            nsliced += 1
+            for lst, label in ((excerpt.headers, 'relabelled'), (excerpt.units, 'cm')):
+                for i in range(len(lst)):
+                    lst[i] = f'{label} {i}'
+            # (columns and highlights of a slice are numpy views of the source, by design: left alone)
+            after = snapshot(tab)
+            if after != before:
+                rec.fail(f'{what}: after its excerpt t[:1] was relabelled in place, the source table changed: '
+                         f'headers {before[0]} -> {after[0]}, units {before[1]} -> {after[1]}'
+                         + ('' if after[2] == before[2] else '; it is now written as\n' + after[2][:400]),
+                         'history-slice-changes-source')
+    rec.count('history_excerpts_modified', nsliced)
     # ---- in-place use of the templates by their holder
     texts = [t for _, tmpls in calls for t in tmpls if isinstance(t, TextTemplate)]
     ko_texts = [t for t in texts if ':hl:`' in t.text]
@@ -1362,7 +1394,8 @@ def gen_meta_case(rng):
                 row.append(f'v{k}')
             else:
                 roll = rng.random()
-                row.append(f'v{k}' if roll < 0.6 else (None if roll < 0.7 else rng.choice([f'w{k}', k, 2.5])))
+                row.append(f'v{k}' if roll < 0.6 else (None if roll < 0.7 else
+                                                        rng.choice([f'w{k}', k, 2.5, f'v{k} ', f' w{k}', f'w{k}.2  '])))
         values.append(row)
     if all(v is None for row in values for v in row):
         values[0][0] = 'v0'
@@ -1415,6 +1448,17 @@ SAFE_WORDS = ['a', 'ok', 'Galahad', '1.5', '2e-10', 'nan', 'True', 'False', '0 -
 WILD_CHARS = ['a', 'b', ' ', ' ', '=', '`', ':', NBSP, 'σ', 'α', 'é', '*', '_', '|', '\\', '.', '-', '\t', ' ']
 
 
+def blanks_around(rng, text, flag):
+    '''string cells with leading / trailing blanks: spaces for any cell, also tabs and no-break
+    spaces for a highlighted one (it is stripped before it is wrapped in the role)'''
+    if not isinstance(text, str) or rng.random() < 0.5:
+        return text
+    pool = [' ', '  ', '\t', ' \t ', NBSP] if flag else [' ', '  ']
+    lead = rng.choice(pool) if rng.random() < 0.4 else ''
+    trail = rng.choice(pool) if rng.random() < 0.7 else ''
+    return lead + text.strip() + trail
+
+
 def gen_str_case(rng, safe):
     # a one-column TableTemplate cannot be rendered (np.nditer yields scalars); no result kind makes one
     ncol, nrow = rng.randint(2, 4), rng.randint(1, 4)
@@ -1430,6 +1474,8 @@ def gen_str_case(rng, safe):
         cols = [[rng.choice([word(10), ':hl:`' + word(3) + '`', '  ' + word(4), '===', word(2)])
                  for _ in range(nrow)] for _ in range(ncol)]
     mask = [[rng.random() < 0.3 for _ in range(nrow)] for _ in range(ncol)]
+    if safe:
+        cols = [[blanks_around(rng, text, flag) for text, flag in zip(col, msk)] for col, msk in zip(cols, mask)]
     if rng.random() < 0.05:
         mask = [m[:-1] if nrow > 1 else m for m in mask]   # short highlights: rows dropped by zip
         safe = safe and nrow == 1
@@ -1470,6 +1516,9 @@ def gen_col_case(rng):
                      'mixed': rng.choice([1, 2.5, 7, 1 / 3])}[sort] for _ in range(nrow)]
         columns.append([code, vals])
     mask = [[rng.random() < 0.3 for _ in range(nrow)] for _ in range(ncol)]
+    for spec, msk in zip(columns, mask):
+        if spec[0] in ('U', 'list'):
+            spec[1] = [blanks_around(rng, val, flag) for val, flag in zip(spec[1], msk)]
     return {'kind': 'coltable', 'headers': [f'h{j}' for j in range(ncol)], 'columns': columns, 'mask': mask,
             'safe': True}
 
@@ -1515,6 +1564,10 @@ CORPUS = [
                  ['i1', [-5, 100]], ['b1', [True, False]], ['c16', [[1 / 3, 2.0], [0.0, -1 / 7]]], ['list', [1, 2.5]]],
      'mask': [[False, False], [True, False], [False, True], [False, False], [False, True], [True, False],
               [False, False], [False, True]]},
+    # string cells with blanks around them, highlighted
+    {'kind': 'meta', 'names': ['b', 'a', 'c'], 'values': [['v0', 'v11.2 '], ['v0', 'v11.2'], [' v0', 'v11.2\t']]},
+    {'kind': 'strtable', 'headers': ['name', 'value'], 'safe': True,
+     'cols': [['a ', ' b', 'c\t'], ['x y ', 'v11.2 ', ' ok  ']], 'mask': [[False, False, True], [True, True, True]]},
     # metadata: samples given in non-alphabetical order, keys failing for some samples only
     {'kind': 'meta', 'names': ['zeta', 'alpha', 'Mid'],
      'values': [['v0', 'v1', 'v2'], ['v0', 'w1', 'v2'], ['v0', 'v1', 'x2']]},
